@@ -53,7 +53,7 @@ ASSUMPTIONS = [
     "govaluate is modelled by Model/Expr.v for the generated expression subset (constants, variables, [actor signal], comparison, + - * /, function calls with the separator-built argument list incl. a single array argument spread and a single nil argument dropped)",
     "sort.Sort / sort.Float64s are represented by insertion sorts (Model/Functions.v vsort, qsort); sort.Sort is not stable, so the generator never puts a boolean and the number it converts to (0/1) into one `sorted` argument list",
     "+Inf / -Inf / NaN flowing through collects / computes are compared by the harness's Go reference (harness/c11/nonfinite.go), not in Coq; a non-finite RESULT of an array function on finite arguments is reported as a failure",
-    "log, sqrt, ndiff are not modelled (irrational results); the property's 'scalar functions' are covered for abs, floor, ceil, round",
+    "log and sqrt are not modelled, ndiff is judged by the oracle only, tuple values (a, b) are outside Model/Expr.v and judged by the Go reference harness/c11/tuples.go (irrational results); the property's 'scalar functions' are covered for abs, floor, ceil, round",
     "the end-to-end theorems (c11_collected_variable_end_to_end, c11_computed_variable_end_to_end) are about histories that run to their end without an evaluation error; for aborted histories the statement over arbitrary round sequences (c11_collected_over_any_rounds) applies up to the aborting round; 'the values its expression produced while its auditor was active' is the executable definition produced_rounds of Model/FunctionsSpec.v (dependency gates, activation incl. the closing round, declaration order)",
     "member names are distinct (the parser keys the audience by name); samples reach the audition only for signals with a sink (reproduced through the hook VerifSinks)",
 ]
@@ -64,6 +64,8 @@ RULE = ("(1a) value sequences of 0-30 values (a pool of 2-5 small dyadic numbers
         "(1d) the real processAssignments of an auditor with 1-3 computes/collects clauses called 3-14 times, before each call the input variables set (numbers, booleans, strings, arrays incl. the empty one, so that first(q)/max(q) are nil in the middle of the sequence) or left de-activated (dependency gate), 7 of 10 with input-only expressions (oracle: the real evaluator's value of each expression), the others with clauses over earlier targets; "
         "(1e) the clause-level tie: single collects clauses whose count is written with leading zeros (010, 0012, 09, 007, 08, 019, 0100 ... and random %0*d spellings of 1..20; every count in the other generated configurations is also written with leading zeros one time in three) must be accepted and keep the DECIMAL count of values (run N+4 times through the real processAssignments), a count of 0 / 00 must be refused, and no generated configuration may be refused by the parser; "
         "(1f) non-finite values as ordinary values, judged by the harness in Go (the model's rationals cannot hold them) against a reference written from the plain meaning: value sequences with +Inf/-Inf/NaN through the real collectFns; clause lists over 1 / q1, -1 / q1, q2 / q1, q1 (q1 = 0 or +Inf in some calls) plus count/max/min of the collected array through the real processAssignments, every call compared; audiences (`al audits throughout`, clauses over 1 / [x s], -1 / [x s], [y s] / [x s], a second member computing max/min/count of the array, an observer) through the real audition with zero samples: final values and the observations of every computes variable (NaN-free cases: first/last positional, top/bottom = sort of the extended reals + truncation, computes = latest value; cases with NaN pin what the unchanged code does: NaN inserted in front by top/bottom since >= / <= are false on it, every assignment of NaN observed since DeepEqual(NaN, NaN) is false); "
+        "(1g) computed arrays: `computes v1 as ([x s], 2, 3)` (tuples of 2-6 elements built with the comma operator), variables extending them `(v1, 14)`, calls passing them with an extra argument `max(v1, 100)`, and a second member (declared after or before the first) reading them through sum/last/count/max/first, through the real audition; judged in Go against the plain meaning (values are immutable: final value and observations of every variable are those its own clause gives for the samples); the expression model has no tuple value; "
+        "(1h) ndiff / normalized_difference on references of both signs, nil, wrong arity and non-numbers, judged by the oracle only (|x - y| / |y|; no statement for a zero reference); "
         "(2) audiences of 2-4 auditors (activation none/throughout/mood-based/signal-based) with 2-6 collects/computes clauses, each either over signals only or over variables defined earlier in the file by ANY member (so later members read earlier members' variables in the same round and earlier members read later members' variables one round late), an observer watching most variables, histories of 1-3 on-phases (mood red and x above the threshold) through the real audition via cmd.VerifAudition; "
         "plus the fixed corpus (witnesses of the refuted statements, past failures). "
         "distinct = by printed Coq term; non-trivial = collect: more values than N+1; function: >= 2 arguments; expression: >= 2 calls; processAssignments: >= 2 clauses and >= 5 calls; chain: >= 3 observations of computed/collected variables and >= 2 activation periods")
@@ -220,6 +222,12 @@ def run(tier, seed):
             if c["Ok"]:
                 continue
             n_nf_bad += 1
+            if c["Family"] == "tuple":
+                report("computed-array-changed-without-assignment",
+                       "%s: a variable does not hold what its clause last gave it (values are immutable: `arr2 as (arr, 4)` stays [.. 4] whatever max(arr, 100) does)" % c["What"],
+                       {"family": c["Family"], "input": c["Input"], "expected": c["Expected"], "observed": c["Observed"],
+                        "replay": "cmd.VerifAudition(config, sample rounds + final, false, false)"})
+                continue
             report("non-finite-value-not-kept-as-a-value" if not c["Pinned"] else "non-finite-value-nan-behaviour-changed",
                    "%s: +Inf / -Inf / NaN produced by an expression is a value like any other (first/last N keep it positionally, top/bottom N order it as the extended reals, a computes variable holds it as the latest value)" % c["What"],
                    {"family": c["Family"], "input": c["Input"], "expected": c["Expected"], "observed": c["Observed"],
